@@ -545,18 +545,21 @@ pub fn parse_number<'a, const FORMAT: u128, const IS_PARTIAL: bool>(
     #[cfg(feature = "format")]
     {
         let base_prefix = format.base_prefix();
-        let mut iter = byte.integer_iter();
+        // NOTE: Look for the prefix on a copy, so a leading `0` that is not
+        // followed by the prefix character remains an ordinary digit.
+        let mut prefix = byte.clone();
+        let mut iter = prefix.integer_iter();
         if base_prefix != 0 && iter.read_if_value_cased(b'0').is_some() {
             // Check to see if the next character is the base prefix.
             // We must have a format like `0x`, `0d`, `0o`.
             // NOTE: The check for empty integer digits happens below so
             // we don't need a redundant check here.
-            is_prefix = true;
-            if iter.read_if_value(base_prefix, format.case_sensitive_base_prefix()).is_some()
-                && iter.is_buffer_empty()
-                && format.required_integer_digits()
-            {
-                return Err(Error::EmptyInteger(iter.cursor()));
+            if iter.read_if_value(base_prefix, format.case_sensitive_base_prefix()).is_some() {
+                is_prefix = true;
+                if iter.is_buffer_empty() && format.required_integer_digits() {
+                    return Err(Error::EmptyInteger(iter.cursor()));
+                }
+                byte = prefix;
             }
         }
     }
